@@ -14,7 +14,7 @@ import numpy as np
 
 from oracles.sphere import separation_f64
 from vlib import cats, gen
-from vlib.core import HELD, SKIPPED, VIOLATED, Check, Scratch, result
+from vlib.core import HELD, SKIPPED, VIOLATED, Check, Scratch, result, case_bits
 
 TRANSFORMS = ["rotation", "rotation_to_pole", "rotation_across_ra0", "row_permutation", "centre_permutation",
               "weight_scale", "split"]
@@ -117,7 +117,7 @@ class C13(Check):
         if any(near_edge(tables[a], tables[b]) for a, b in pairs_used):
             return [result(SKIPPED, cls="rejected-margin", nontrivial=False, counters=dict(rejected_margin=1))]
 
-        from_index = tr.startswith("rotation") and case["seed"] % 2 == 1
+        from_index = tr.startswith("rotation") and case_bits(case, "index") % 2 == 1
 
         def build(tmp, tag, tabs, cen):
             cobj = cats.coords_obj(cen)
